@@ -2569,3 +2569,7 @@ for _P, _R in (("C01", "R1.18"), ("C05", "R5.16")):
     M(_P, "merge-decision-revalidated", WALK,
       "        if self.will_merge and not self.loop_kill_paths[-1]:\n            return True\n",
       "", _R, "every later path re-validates the merge with one path fewer (seed C01-o)")
+M("C05", "edge-to-kill-dropped", PG,
+  "        super().add_edge(start_node, end_node, **attrs)",
+  "        if not isinstance(end_node, PUMLKillNode):\n            super().add_edge(start_node, end_node, **attrs)",
+  "R5.18", "edges into a kill node are silently dropped (seed C05-o)")
